@@ -17,14 +17,24 @@ import hv
 from hv import Case
 
 SPEC = {
-    "lean_modules": ["Honeycomb.Props.C16"],
+    "lean_modules": ["Honeycomb.Props.C16", "Honeycomb.Props.C16Cross"],
     "required_theorems": ["C16_orientation_rejection_iff", "C16_orientation_accepts_iff_nodup", "C16_closed_loop_accepted",
-                          "C16_repeated_origin_rejected", "C16_repeated_endpoint_rejected", "C16_grid_margins", "C16_grid_tight"],
+                          "C16_repeated_origin_rejected", "C16_repeated_endpoint_rejected", "C16_grid_margins", "C16_grid_tight",
+                          "C16_crossings_sound", "C16_crossings_on_grid_lines", "C16_crossings_complete", "C16_crossings_sorted",
+                          "C16_between_crossings_one_cell"],
     "trusted_base": [
         "Lean 4.33 kernel; axioms propext, Classical.choice, Quot.sound only",
         "hand-written model Honeycomb/Model/Grisubal.lean (detect_orientation_issue; sizing formulas of compute_overlapping_grid) "
         "tied to /repo by the hcmodel/hcimpl correspondence on the `orient` command (exhaustive small segment lists + random "
         "lists) and by comparing the model's `ogrid` answers with the bounding box of every unclipped map grisubal returns",
+        "hand-written model `crossingsOf` (Model/Grisubal.lean: generate_intersection_data for one segment, the four "
+        "intersection macros, the three cases, the epsilon bands, retain + stable sort) tied to /repo through the public API: "
+        "`grisubal none` then the harness command `gcross` reads off the returned map the vertices lying inside each input "
+        "segment, in the order of the segment; compared with the model's list — as equal exact rationals on the exact family "
+        "(zonogons with sides (+-2^a, +-2^b), power-of-two cells: every f64 operation of the kernel is exact), within 1e-9 on "
+        "general polygons — and with the independent Python computation; `gchain` checks that consecutive ones are joined "
+        "by an edge. The intermediate (dart, t) pairs are not observable through the public API (only their effect: the "
+        "inserted vertex) — a cfg(honeycomb_verif) accessor for generate_intersection_data would make that part of the tie direct",
         "Rust harness /verif/harness/hcimpl/src/gris.rs (writes the geometry as a legacy ASCII VTK file, calls the public "
         "grisubal) and tools/grisgeo.py + tools/props/c16.py (the exact oracle: independent crossings, areas, sides, coverage)",
         "vtkio's legacy reader (the geometry reaches the kernel through a file)",
@@ -51,7 +61,10 @@ SPEC = {
         "region area, every segment covered by free boundary edges): validated by the exact oracle on the real "
         "implementation, not proved",
         "compute_overlapping_grid: detection of vertices on grid lines and termination of the shift loop (the sizing "
-        "formulas are proved for any shift < 1/2 cell: C16_grid_margins); generate_intersection_data, "
+        "formulas are proved for any shift < 1/2 cell: C16_grid_margins); step 1 (generate_intersection_data) is modelled and "
+        "proved for one segment over exact rationals under eps-general position (C16_crossings_*: sound, complete, sorted, one "
+        "cell between consecutive crossings); NOT proved: that f64 rounding preserves these (the tie is exact only on the "
+        "exact family), the corner case IntersecCorner (outside general position), "
         "group_intersections_per_edge / compute_intersection_ids, generate_edge_data, insert_edges_in_map: not modelled "
         "(HashMap-ordered dart numbering, f64 epsilon bands); covered only by the end-to-end oracle",
         "clip_left / clip_right closure: not reachable through the public API on hand-made maps (Boundary is pub(crate)); "
